@@ -43,3 +43,16 @@ Proof.
   cbn [compile_sentence]. induction (compile_sentence s y) as [|r rs IH]; cbn [flat_map length]; [reflexivity|].
   now rewrite app_length, map_length, IH.
 Qed.
+
+(* ------------------------------------------------------------------ one quantified clause *)
+Lemma forallb_flat_map {A B} (f : A -> list B) (p : B -> bool) l :
+  forallb p (flat_map f l) = forallb (fun a => forallb p (f a)) l.
+Proof. induction l as [|a l IH]; cbn [flat_map forallb]; [reflexivity|]. now rewrite forallb_app, IH. Qed.
+Lemma forallb_map' {A B} (f : A -> B) (p : B -> bool) l : forallb p (map f l) = forallb (fun a => p (f a)) l.
+Proof. induction l as [|a l IH]; cbn [map forallb]; [reflexivity|]. now rewrite IH. Qed.
+Lemma existsb_flat_map {A B} (f : A -> list B) (p : B -> bool) l :
+  existsb p (flat_map f l) = existsb (fun a => existsb p (f a)) l.
+Proof. induction l as [|a l IH]; cbn [flat_map existsb]; [reflexivity|]. now rewrite existsb_app, IH. Qed.
+Lemma existsb_map' {A B} (f : A -> B) (p : B -> bool) l : existsb p (map f l) = existsb (fun a => p (f a)) l.
+Proof. induction l as [|a l IH]; cbn [map existsb]; [reflexivity|]. now rewrite IH. Qed.
+
